@@ -13,7 +13,7 @@ pub use super::no as lossy;
 pub use super::has_seam as seamless_flavour;
 pub const SEAMLESS: bool = false;
 
-pub const POD: &[usize] = &[64, 128, 192, 256, 320, 384, 448, 512, 768, 1024];
+pub const POD: &[usize] = &[64, 128, 192, 256, 320, 384, 448, 512, 576, 640, 704, 768, 832, 896, 960, 1024];
 
 pub fn supports(bits: usize, _flavour: u32) -> bool {
     POD.contains(&bits)
@@ -64,6 +64,12 @@ macro_rules! pod_width {
             384 => { const $B: usize = 384; const $L: usize = 6; $body }
             448 => { const $B: usize = 448; const $L: usize = 7; $body }
             512 => { const $B: usize = 512; const $L: usize = 8; $body }
+            576 => { const $B: usize = 576; const $L: usize = 9; $body }
+            640 => { const $B: usize = 640; const $L: usize = 10; $body }
+            704 => { const $B: usize = 704; const $L: usize = 11; $body }
+            832 => { const $B: usize = 832; const $L: usize = 13; $body }
+            896 => { const $B: usize = 896; const $L: usize = 14; $body }
+            960 => { const $B: usize = 960; const $L: usize = 15; $body }
             768 => { const $B: usize = 768; const $L: usize = 12; $body }
             1024 => { const $B: usize = 1024; const $L: usize = 16; $body }
             _ => unreachable!("not a Pod width"),
